@@ -3,6 +3,7 @@ mod c03;
 mod c04;
 mod c05;
 mod c06;
+mod c07;
 mod c08;
 mod c09;
 mod c10;
@@ -51,6 +52,7 @@ fn main() {
         "C04" => c04::main(&args[1..]),
         "C05" => c05::main(&args[1..]),
         "C06" => c06::main(&args[1..]),
+        "C07" => c07::main(&args[1..]),
         "C08" => c08::main(&args[1..]),
         "C09" => c09::main(&args[1..]),
         "C10" => c10::main(&args[1..]),
